@@ -84,6 +84,8 @@ type env struct {
 	cur     *state2.State
 	arbs    []*state2.ArbiterInfo
 	voteTxs map[int]interfaces.Transaction
+	// heights of blocks in which an InactiveArbitrators tx named a producer that was ALREADY inactive
+	emergTwice map[uint32]bool
 }
 
 var e *env
@@ -353,6 +355,16 @@ func exec(t []string) string {
 	case "blk":
 		h, _ := strconv.Atoi(t[1])
 		b := blockDesc{height: uint32(h), sponsor: t[2], txs: t[3:]}
+		for _, d := range b.txs {
+			if p := strings.Split(d, ":"); p[0] == "inactive" {
+				if pr := e.cur.GetProducer(ownerKeys[idx(p[1])]); pr != nil && pr.State() == state2.Inactive {
+					if e.emergTwice == nil {
+						e.emergTwice = map[uint32]bool{}
+					}
+					e.emergTwice[uint32(h)] = true
+				}
+			}
+		}
 		process(e, e.cur, b)
 		e.blocks = append(e.blocks, b)
 		return status(e.cur)
@@ -364,6 +376,13 @@ func exec(t []string) string {
 	case "rb":
 		k64, _ := strconv.Atoi(t[1])
 		k := uint32(k64)
+		lastEmergTwice = false
+		for hh := range e.emergTwice {
+			if hh > k {
+				lastEmergTwice = true
+				delete(e.emergTwice, hh)
+			}
+		}
 		if err := e.cur.RollbackTo(k); err != nil {
 			return status(e.cur) + " err"
 		}
@@ -443,6 +462,8 @@ func exec(t []string) string {
 		lastVerdict = "same"
 		if len(diff) > 0 {
 			lastVerdict = "diff " + strings.Join(diff, ",")
+			// continue from the direct build: later comparisons are independent experiments
+			e.cur = fresh.cur
 		}
 		return status(e.cur)
 	}
@@ -451,12 +472,18 @@ func exec(t []string) string {
 
 var lastDiff map[string][2]string
 var lastVerdict string
+var lastEmergTwice bool
 var reportedN = map[string]int{}
 
 // leaf names of the differences recorded in known-findings.jsonl (only used to order the report)
-var recorded = map[string]bool{"LastIrreversibleHeight": true, "PreBlockArbiters[]": true,
-	"Producer.inactiveCountingHeight": true, "Producer.inactiveCount": true, "Producer.activateRequestHeight": true,
-	"ActivityProducers[]": true, "InactiveProducers[]": true, "EmergencyInactiveArbiters[]": true}
+var recordedLeaf = map[string]bool{"LastIrreversibleHeight": true, "PreBlockArbiters[]": true,
+	"Producer.inactiveCountingHeight": true, "Producer.inactiveCount": true, "Producer.activateRequestHeight": true}
+
+// the three membership leaves are a recorded finding only when the rolled-back range contains an
+// emergency-inactive transaction on a producer that was already inactive
+var emergLeaf = map[string]bool{"ActivityProducers[]": true, "InactiveProducers[]": true, "EmergencyInactiveArbiters[]": true}
+
+func recorded(n string) bool { return recordedLeaf[n] || (lastEmergTwice && emergLeaf[n]) }
 
 // ---------------------------------------------------------------- oracle: the property itself
 
@@ -471,7 +498,7 @@ func oracle(t []string, out string) *hx.Violation {
 		// difference is never hidden behind a known one
 		first := ""
 		for _, n := range fields {
-			if !recorded[n] {
+			if !recorded(n) {
 				first = n
 				break
 			}
@@ -497,6 +524,10 @@ func oracle(t []string, out string) *hx.Violation {
 		}
 		if len(det) > 1500 {
 			det = det[:1500] + "…"
+		}
+		det = fmt.Sprintf("emergency-inactive-on-inactive=%v; ", lastEmergTwice) + det
+		if lastEmergTwice && emergLeaf[first] {
+			first = "emergency-inactive-twice"
 		}
 		return &hx.Violation{Kind: "rollback-differs:" + first, Detail: "State after RollbackTo(" + t[1] + ") differs from a fresh State that processed only heights <= " + t[1] + ": " + det}
 	}
